@@ -742,6 +742,8 @@ fn op_strategy() -> impl Strategy<Value = BOp> {
         2 => prop::collection::vec(bytes_strategy(10), 0..5).prop_map(BOp::Args),
         5 => (key_strategy(), bytes_strategy(12)).prop_map(|(k, v)| BOp::Env(k, v)),
         2 => prop::collection::vec((key_strategy(), bytes_strategy(8)), 0..5).prop_map(BOp::EnvExtend),
+        // a large environment: hundreds of distinct names in one call (list growth, re-allocation points)
+        1 => (150u16..420, any::<u8>()).prop_map(|(n, tag)| BOp::EnvExtend((0..n).map(|i| (format!("BULK{}_{}", tag % 4, i).into_bytes(), format!("v{}", i).into_bytes())).collect())),
         4 => key_strategy().prop_map(BOp::EnvRemove),
         1 => Just(BOp::EnvClear),
         2 => (0u8..3).prop_map(BOp::Cwd),
